@@ -64,6 +64,16 @@ def cmd_tokens(c: dict) -> List[str]:
     raise ValueError(k)
 
 
+# the agent actions that build the requests of the model's operations (discriminators of primaite.game.agent.actions)
+ACTION_OF = {"rlogin": "node-session-remote-login", "rlogoff": "node-session-remote-logoff", "chpw": "node-account-change-password",
+             "adduser": "node-account-add-user", "disable": "node-account-disable-user", "lcmd": "node-send-local-command",
+             "rcmd": "node-send-remote-command"}
+ACTION_SAMPLES = [
+    {"op": "rlogin", "x": 0, "y": 1, "u": "user-a", "p": "pass-b"}, {"op": "rlogoff", "x": 1, "y": 0},
+    {"op": "chpw", "y": 1, "u": "user-a", "old": "old-b", "new": "new-c"}, {"op": "adduser", "y": 0, "u": "user-a", "p": "pass-b", "admin": True},
+    {"op": "adduser", "y": 1, "u": "user-a", "p": "pass-b", "admin": False}, {"op": "disable", "y": 0, "u": "user-a"},
+    {"op": "lcmd", "y": 0, "u": "user-a", "p": "pass-b", "cmd": {"op": "file", "k": 3}},
+    {"op": "rcmd", "x": 0, "y": 1, "cmd": {"op": "lcmd", "u": "user-a", "p": "pass-b", "cmd": {"op": "file", "k": 4}}}]
 REMOTE = ("rlogin", "rcmd", "rlogoff")
 MEDIUM_OPS = ("block", "rpower", "arpblock", "arpclear")
 # operations on connection OBJECTS somebody kept (Python API: what `Terminal.login` returns): `take x i` keeps a reference to the i-th
@@ -310,7 +320,12 @@ class Impl:
             loc = usm.local_session
             folder = c.file_system.get_folder("root")
             files = [int(f.name) for f in folder.files.values()] if folder else []
+            # what an observer sees (`describe_state`) must be the sessions the manager really holds
+            ds = usm.describe_state()
+            ds_ok = (ds.get("current_local_user") == (None if loc is None else loc.user.username)
+                     and list(ds.get("active_remote_sessions", [])) == list(usm.remote_sessions.keys()))
             nodes.append({
+                "ds_ok": ds_ok,
                 "power": c.operating_state.name,
                 "nic": bool(c.network_interface[1].enabled),
                 "T": term.operating_state.name, "UM": um.operating_state.name, "USM": usm.operating_state.name,
@@ -435,7 +450,37 @@ class Impl:
                     nd.software_manager.arp.clear()
             return "success"
         node = exec_node(op)
+        if self.cfg.get("via") == "action" and k in ACTION_OF:
+            # the request is built by the agent ACTION class (`ActionManager.form_request`: ConfigSchema(**options), then form_request),
+            # not by the rig's own table: the action layer is part of what the model is compared with
+            r = self.sim.apply_request(_resolve(self.action_request(node, op)))
+            return "none" if r is None else r.status
         return self._req(node, _resolve(self.cmd_request(node, op)))
+
+    def action_request(self, node: int, c: dict) -> list:
+        """what the agent action for command `c` on node `node` sends (full path)"""
+        import primaite.game.agent.actions  # noqa: F401  (registers the action classes)
+        from primaite.game.agent.actions.abstract import AbstractAction
+        k = c["op"]
+        name = f"n{node}"
+        if k == "rlogin":
+            opts = {"node_name": name, "username": c["u"], "password": c["p"], "remote_ip": self.ip(c["y"])}
+        elif k == "rlogoff":
+            opts = {"node_name": name, "remote_ip": self.ip(c["y"])}
+        elif k == "chpw":
+            opts = {"node_name": name, "username": c["u"], "current_password": c["old"], "new_password": c["new"]}
+        elif k == "adduser":
+            opts = {"node_name": name, "username": c["u"], "password": c["p"], "is_admin": c["admin"]}
+        elif k == "disable":
+            opts = {"node_name": name, "username": c["u"]}
+        elif k == "lcmd":
+            opts = {"node_name": name, "username": c["u"], "password": c["p"], "command": _resolve(self.cmd_request(node, c.get("cmd", FILE)))}
+        elif k == "rcmd":
+            opts = {"node_name": name, "remote_ip": self.ip(c["y"]), "command": _resolve(self.cmd_request(c["y"], c.get("cmd", FILE)))}
+        else:
+            raise ValueError(k)
+        cls = AbstractAction._registry[ACTION_OF[k]]
+        return cls.form_request(config=cls.ConfigSchema(**opts))
 
 
     def _arp_targets(self, j):
@@ -653,6 +698,9 @@ def oracle(case: dict, snaps: List[dict], stats: List[str]) -> Optional[Tuple[di
                 return ({"kind": "ended-session-revived", "op": k}, f"op {i} {op_line(op)}: an ended session id is valid again", i)
             ever[j] |= {r[0] for r in b["rem"]} | ids_a
             dead[j] |= ever[j] - ids_a
+            if not a.get("ds_ok", True):
+                return ({"kind": "describe-state-disagrees-with-sessions", "op": k}, f"op {i} {op_line(op)}: describe_state() of node {j}'s "
+                        f"user-session-manager does not show its current local user / remote sessions", i)
             # limit, last admin
             if len(a["rem"]) > a["max"]:
                 return ({"kind": "limit-exceeded", "op": k}, f"op {i} {op_line(op)}: more than max_remote_sessions on node {j}", i)
@@ -1340,6 +1388,22 @@ def handle_alphabet() -> List[dict]:
         {"op": "svc", "y": 1, "s": "user-session-manager", "v": "stop"},
         {"op": "usmlogout", "y": 1, "i": 1},
     ]
+
+
+def with_handles(rng: Rng, cfg: dict, ops: List[dict]) -> List[dict]:
+    """the operation list with operations on kept connection objects mixed in: after an operation, sometimes keep a reference to
+    one of the connection objects of some node (whatever is there: client-side, local, or — refused — server-side), and, once
+    something is kept, sometimes run a file command on a kept object or log it off"""
+    out, taken = [], 0
+    for o in ops:
+        out.append(o)
+        if rng.chance(1, 4):
+            out.append({"op": "take", "x": rng.below(cfg["n"]), "i": rng.below(3)})
+            taken += 1
+        if taken and rng.chance(1, 3):
+            k = rng.below(taken // 3 + 1 + (1 if rng.chance(1, 10) else 0))   # about one `take` in four finds an object to keep
+            out.append({"op": "hdisc", "k": k} if rng.chance(1, 4) else {"op": "hexec", "k": k})
+    return out
 
 
 def exhaustive_cases(cfg: dict, prefix: List[dict], depth: int, alpha: List[dict]):
